@@ -48,7 +48,7 @@ func (g *Gen) pipelineAround(focus func() *LNode) *LNode {
 	case 0:
 		return LA(focus())
 	case 1:
-		return LA(focus(), LO("$sort", LO(Fn(g.fname()), LN("-1").DC())), LO("$limit", LN("5").Keep()))
+		return LA(focus(), LO("$sort", LO(FN(g.fname()), LN("-1").DC())), LO("$limit", LN("5").Keep()))
 	case 2:
 		return LA(LO("$skip", LN("7").Keep()), focus())
 	case 3:
@@ -252,7 +252,7 @@ func (g *Gen) buildCase(slot int, cmd *LNode, gate, container int) *Case {
 	g.caseNo++
 	root := LO("t", LO("$date", LS("2024-05-01T10:00:00.123+00:00")), "s", LS("I"), "c", LS(gt.c), "id", LN("51803"), "ctx", LS("conn42"), "msg", LS(gt.msg), "attr", attr)
 	c.Root, c.Attr, c.Cmd = root, attr, cmd
-	c.Secrets, c.NSNodes, c.Prods, c.Focus = g.secrets, g.nsNodes, g.prods, g.focus
+	c.Secrets, c.NSNodes, c.Prods, c.Focus, c.Pattern = g.secrets, g.nsNodes, g.prods, g.focus, g.pattern
 	resolveLabels(root, false, !gt.inClaim)
 	return c
 }
@@ -306,6 +306,9 @@ func genCase(x *X, o GenOpts) *Case {
 	}
 	if g.o.Coll == "" {
 		g.o.Coll = "coQx7"
+	}
+	if o.NamePatterns {
+		g.pattern = x.Free(len(namePatterns), "which field names match")
 	}
 	var slot int
 	if o.Slots != nil {
